@@ -808,6 +808,24 @@ def rule_h(ctx: Context, R: Reporter, base: ClassInfo, subs: List[ClassInfo]):
     R.floor("C03.h", "kernel methods scanned", n, 8)
 
 
+def rule_i(ctx: Context, R: Reporter, base: ClassInfo, subs: List[ClassInfo]):
+    """C03.i  the kernel works on its own copy of the ensemble: an attribute that the runner updates in place
+    (`self.logl[mask] = ...`) never aliases an array the caller passed in (np.asarray / a view keep the caller's memory).
+    Otherwise one mutation overwrites the caller's current log-likelihoods while u and x stay, and the next Metropolis
+    ratio on the same ensemble compares against values that belong to other positions."""
+    from ..fresh import attr_alias_writes
+
+    n = 0
+    for c in [base] + subs:
+        n += 1
+        for (m, st, attr, ip) in attr_alias_writes(ctx, c):
+            R.check("C03.i", "arrays the kernel updates in place are its own copies", False, m, st,
+                    msg=f"{m.short}: `{unparse(st)[:60]}` can leave `self.{attr}` aliasing the caller's array, and `{unparse(ip)[:50]}` writes into it in place: after one call the caller's "
+                        f"{attr} no longer belong to its positions, so a second mutation of the same ensemble uses a wrong current value in the acceptance ratio", key=f"caller-array-write:attr:{c.name}.{attr}")
+    R.check("C03.i", "kernel classes scanned for in-place writes into caller-owned arrays", True, None, None, key="attr-alias-scan")
+    R.floor("C03.i", "kernel classes scanned", n, 3)
+
+
 def run(ctx: Context, R: Reporter):
     base, subs = kernels(ctx)
     R.guard(rule_a, ctx, R, subs)
@@ -816,6 +834,7 @@ def run(ctx: Context, R: Reporter):
     R.guard(rule_f, ctx, R, subs)
     R.guard(rule_g, ctx, R, base, subs)
     R.guard(rule_h, ctx, R, base, subs)
+    R.guard(rule_i, ctx, R, base, subs)
 
 
 def variants():
@@ -827,6 +846,8 @@ def variants():
 
     return [
         Variant("g-relabel-accepted-walkers", "bad", _ia(mc, "BaseMCMCRunner.run", "self.logl[mask_accept] = logl_prime[mask_accept]", "self.assignments[mask_accept] = np.argmin(np.linalg.norm(self.u[mask_accept][:, None, :] - self.mode_stats.means[None, :, :], axis=2), axis=1)"), ["C03.g"], quick=True),
+        Variant("i-logl-aliases-callers-array", "bad", replace_stmt(mc, "BaseMCMCRunner.__init__", "self.logl = logl.copy()", "self.logl = np.asarray(logl, dtype=float)"), ["C03.i"], quick=True),
+        Variant("i-benign-logl-np-array-copy", "benign", replace_stmt(mc, "BaseMCMCRunner.__init__", "self.logl = logl.copy()", "self.logl = np.array(logl, dtype=float)")),
         Variant("h-redraw-lost-in-copy", "bad", _ia(mc, "BaseMCMCRunner.run", "u_prime[k] = self._propose(k)", "bad = np.flatnonzero(~check_bounds(u_prime, self.periodic, self.reflective))\ninside = check_bounds(u_prime[bad], self.periodic, self.reflective)\nu_prime[bad][inside] = 0.5"), ["C03.h"], quick=True),
         Variant("h-benign-redraw-stored-by-index", "benign", _ia(mc, "BaseMCMCRunner.run", "u_prime[k] = self._propose(k)", "bad = np.flatnonzero(~check_bounds(u_prime, self.periodic, self.reflective))\ninside = check_bounds(u_prime[bad], self.periodic, self.reflective)\nu_prime[bad[inside]] = u_prime[bad[inside]]")),
         Variant("g-benign-local-label-view", "benign", _ia(mc, "BaseMCMCRunner.run", "self.logl[mask_accept] = logl_prime[mask_accept]", "labels_now = self.assignments[mask_accept]")),
